@@ -489,7 +489,7 @@ def _replay(darr, np_, ob, fx, path):
     K = int(fx.get('K', 0))
     lens = [int(fx.get(f'l{i + 1}', 0)) for i in range(K)]
     if max(lens + [0]) > 3000:
-        return {'reproduced': False, 'detail': 'too large'}
+        return {'reproduced': False, 'skip': True, 'detail': 'too large'}
     atom = tuple(fx.get('atom', ()))
     problems = []
     if ob.startswith('R-append') or ob.startswith('R-iterappend'):
@@ -604,7 +604,7 @@ def _replay(darr, np_, ob, fx, path):
         for step in range(2):
             o, x = int(fx[f'o{step + 1}']), int(fx[f'x{step + 1}'])
             if x > 3000:
-                return {'reproduced': False, 'detail': 'too large'}
+                return {'reproduced': False, 'skip': True, 'detail': 'too large'}
             if o == 0:
                 it = rp.values(np_, x, atom, 'int64', 'little', 100 * (step + 1)).tolist()
                 ra.append(it)
